@@ -363,7 +363,14 @@ def call_reader(pb, reader, desc, args):
         t = reader.time_at(desc["k"])
         a = reader.offset_at(t) if t is not None else None
         b = reader.offset_at(reader.time_at(desc["k"], unit=u.us))
-        return (a, b, reader.stop_time, len(reader), reader.dt, reader.time_length)
+        c = reader.offset_at(args["q"])
+        if "t" in args:
+            c = (c, reader.contains(args["t"]), args["t"] in reader, reader.contains(args["ts"]))
+            try:
+                reader.offset_at(args["t"])      # lower precision: may land on a neighbour or raise
+            except EOFError:
+                pass
+        return (a, b, c, reader.stop_time, len(reader), reader.dt, reader.time_length)
     if k == "oob":
         return reader.read(len(reader) - 1 if len(reader) else 0, 3)
     if k == "pickle":
@@ -482,6 +489,17 @@ def reader_step(ctx, pb, heap, inj, io, rh, s, hist):
     if desc["kind"] == "read_lock":
         import threading
         args["lock"] = threading.RLock()     # re-entrant: an interrupt between the with-body and __exit__ leaves it held
+    if desc["kind"] == "time_offset":
+        import astropy.units as u
+        from astropy.time import Time
+        args["q"] = (desc["k"] / reader.sample_rate).to(u.ms)
+        t = reader.time_at(desc["k"])
+        if t is not None:
+            args["t"] = Time(t.mjd, format="mjd", scale=t.scale) if desc["k"] % 2 else \
+                Time(t.isot, format="isot", scale=t.scale, precision=6)
+            args["ts"] = Time([t.jd1, t.jd1], [t.jd2, t.jd2], format="jd", scale=t.scale)
+        for k, v in args.items():
+            heap.add(v, "arg", f"argument {k} of step {s} {opname}")
 
     def thunk():
         core.clear_library_caches(pb)
@@ -584,8 +602,12 @@ def _run(ctx):
         seam = iosim.installed(pb, io)
         seam.__enter__()
         ctx._seam = seam
-        rd = files.open_reader(pb, rs)
+        owned = {}
+        rd = files.open_reader(pb, rs, owned)
         readers.append(heap.add(rd, "reader", f"reader {rs['cls']} on {fs['kind']}"))
+        for k, v in owned.items():
+            if isinstance(v, (list, dict, np.ndarray)):
+                heap.add(v, "arg", f"constructor argument {k} of the reader")
         specs.append({"reader": rs})
         ctx.probe("reader_on_heap")
     ctx.log("world", specs)
